@@ -1,7 +1,7 @@
 """C01 — end-to-end at-least-once through Router pipelines under faults."""
 from . import common as C
 
-HEADER = 'From WM Require Import Base.Prelude Message.Model Handler.RouterHandle Pipeline.Model Corr.C01.\n'
+HEADER = 'From WM Require Import Base.Prelude Message.Model Handler.RouterHandle Pipeline.Model Pipeline.ImmModel Corr.C01.\n'
 ST = ['Unsettled', 'Acked', 'Nacked']
 FK = ['none', 'handler error', 'handler panic', 'publish error after j', 'publish panic after j']
 
@@ -113,7 +113,7 @@ def evaluate(pid, tag, data, res):
         ndup = len(c['sink']) - len({(m['lin'], tuple(m['path'])) for m in c['sink']})
         res.count('duplicates at the sink=%s' % ('0' if ndup == 0 else '1+'))
         bad = [e for d in c['log'] for e in d['events'] if event_term(e) is None]
-        if bad or any('Publish with' in n or 'rejected' in n or 'source publish failed' in n for n in c['notes']):
+        if bad or any('Publish with' in n or 'rejected' in n or 'source publish failed' in n or 'closed Pub/Sub returned nil' in n for n in c['notes']):
             res.violations.append(dict(signature='C01/unexpected-observation', what='unexpected observation: %s %s' % (bad[:1], c['notes'][:2]), case=describe(c, True)))
             continue
         if any(('teardown hung' in n or 'router close' in n or 'Run did not return' in n) for n in c['notes']):
@@ -127,7 +127,7 @@ def evaluate(pid, tag, data, res):
         r = C.coq_eval(pid, 'cases_%s_%d' % (tag, part), HEADER + 'Definition cases : list c01_case := %s.\n' % C.coq_list([case_term(c) for c in chunk]),
                        [('R_mis', 'c01_mismatches cases'), ('R_log', 'c01_log_violations cases'),
                         ('R_inv', 'c01_invented_violations cases'), ('R_lost', 'c01_lost_violations cases'),
-                        ('R_red', 'c01_redelivery_violations cases')])
+                        ('R_red', 'c01_redelivery_violations cases'), ('R_imm', 'c01_immediate_violations cases')])
         vio = set()
         for i in r['R_log']:
             vio.add(i)
@@ -137,6 +137,9 @@ def evaluate(pid, tag, data, res):
         for i in r['R_inv']:
             vio.add(i)
             res.violations.append(dict(signature='C01/invented', what='a message arrived at the final topic that does not descend from a successfully published source message (lineage/path not derivable)', case=describe(chunk[i], True)))
+        for i in r['R_imm']:
+            vio.add(i)
+            res.violations.append(dict(signature='C01/redelivery-not-immediate', what='after a Nack another message was delivered to the stage before the Nacked one was redelivered (the Sender must keep the sending lock: one in flight)', case=describe(chunk[i], True)))
         for i in r['R_red']:
             vio.add(i)
             res.violations.append(dict(signature='C01/not-redelivered', what='a delivery attempt ended in a Nack and the same message was never attempted again at that stage although nothing is pending', case=describe(chunk[i], True)))
